@@ -959,7 +959,7 @@ def correspond_life(res, only=None):
         if res.tier != 'quick':
             cases += [life_basic('fork', LIFE_TYPEIDS, True), life_basic('fork', LIFE_TYPEIDS, False),
                       life_basic('spawn', LIFE_TYPEIDS, False), life_basic('forkserver', LIFE_TYPEIDS, True)]
-            cases += [gen_life_case(rng) for _ in range(40)]
+            cases += [gen_life_case(rng) for _ in range(24)]
     outs = []
     for ch in core.chunks(cases, 10):
         outs += core.run_driver('mgr_driver.py', dict(mode='life', cases=ch), timeout=1500)
